@@ -42,12 +42,14 @@ func snapshot(m *pool.Message, where string) snap {
 }
 
 type hcase struct {
-	Kind     string `json:"transport"`
-	Pool     int    `json:"pool_capacity"`
-	N        int    `json:"exchanges"`
-	Parallel int    `json:"parallel"`
-	Sweeper  bool   `json:"concurrent_housekeeping"`
-	Seed     int64  `json:"seed"`
+	Kind       string `json:"transport"`
+	Pool       int    `json:"pool_capacity"`
+	N          int    `json:"exchanges"`
+	Parallel   int    `json:"parallel"`
+	Sweeper    bool   `json:"concurrent_housekeeping"`
+	HoldHijack bool   `json:"receive_path_waits_for_app_release"`
+	QuickApp   bool   `json:"application_releases_at_once"`
+	Seed       int64  `json:"seed"`
 }
 
 func runHistory(rec *vr.Rec, c hcase) {
@@ -63,6 +65,7 @@ func runHistory(rec *vr.Rec, c hcase) {
 		}
 	}
 	defer p.Close()
+	p.HoldAfterHijack.Store(c.HoldHijack)
 	var held atomic.Int64
 	changed := func(before snap, m *pool.Message) {
 		after := snapshot(m, before.where)
@@ -95,7 +98,9 @@ func runHistory(rec *vr.Rec, c hcase) {
 			pool.VerifHold(m, "response returned from a request call")
 			held.Add(1)
 			s := snapshot(m, "returned-response")
-			time.Sleep(time.Duration(20+len(s.body)%50) * time.Microsecond)
+			if !c.QuickApp {
+				time.Sleep(time.Duration(20+len(s.body)%50) * time.Microsecond)
+			}
 			changed(s, m)
 			pool.VerifUnhold(m)
 		},
@@ -185,12 +190,14 @@ func TestRun(t *testing.T) {
 	var cases []hcase
 	for i := 0; i < vr.Scale(48, 2400); i++ {
 		cases = append(cases, hcase{
-			Kind:     []string{"udp", "udp", "tcp"}[i%3],
-			Pool:     []int{0, 1, 4, 1024}[i%4],
-			N:        40 + rnd.Intn(161),
-			Parallel: 1 + rnd.Intn(8),
-			Sweeper:  i%2 == 0,
-			Seed:     rnd.Int63(),
+			Kind:       []string{"udp", "udp", "tcp"}[i%3],
+			Pool:       []int{0, 1, 4, 1024}[i%4],
+			N:          40 + rnd.Intn(161),
+			Parallel:   1 + rnd.Intn(8),
+			Sweeper:    i%2 == 0,
+			HoldHijack: i%3 != 0,
+			QuickApp:   i%4 < 2,
+			Seed:       rnd.Int63(),
 		})
 	}
 	var wg sync.WaitGroup
